@@ -12,6 +12,7 @@
 From Coq Require Import ZArith NArith List Bool.
 From PydoctorVerif Require Import Base.Sexp Spec.CleanDoc Spec.Reporting Model.Msg Model.Lines Proofs.LinesProofs.
 From PydoctorVerif Require Model.EpyLines Spec.EpyBlocks Proofs.EpyProofs.
+From PydoctorVerif Require Import Model.LinesIR Gen.LinesCode Proofs.LinesIRProofs.
 Import ListNotations.
 Local Open Scope Z_scope.
 
@@ -435,3 +436,42 @@ Example C16_epytext_example :
              (EpyLines.tokenize [mk 4 0 false; mk 0 0 false; mk 8 2 true; mk 8 4 false; mk 11 0 true]%nat)
   = Some [(EpyLines.PARA, 0); (EpyLines.BULLET, 2); (EpyLines.PARA, 2); (EpyLines.BULLET, 4); (EpyLines.PARA, 4)]%nat.
 Proof. vm_compute. reflexivity. Qed.
+
+(* ---- the tie to the source: translated code = model --------------------------------------------------------------
+   Gen/LinesCode.v is written on every run by harness/gen/gen_c16_code.py from the CURRENT source of
+   Documentable.report, docutils.get_lineno and epydoc2stan.reportErrors (statement by statement, fail-closed).  For ALL
+   inputs, interpreting that code (Model/LinesIR.v) is the hand-written model the theorems above are about: an edit of
+   those functions that changes their meaning breaks one of these obligations; a rewrite that keeps it (renamed locals,
+   conditional expression instead of if/else, `+=` vs `+`, a loop instead of the recursive helper, find/!= -1 instead of
+   in/index) still translates and still proves. *)
+Theorem C16_code_report_is_model :
+  forall (o : obj) (descr section : text) (off thresh : Z),
+    effects_of (report_ir code_report o descr section off thresh) = Some [FxMsg (report_call o descr section off thresh)].
+Proof. exact code_report_is_model. Qed.
+
+(* ... so the line the real code prints is the line C16_shift_invariance / C16_offset_bases are about *)
+Theorem C16_code_report_line :
+  forall (o : obj) (descr section : text) (off thresh : Z),
+    exists c, effects_of (report_ir code_report o descr section off thresh) = Some [FxMsg c] /\
+      c_section c = section /\ c_thresh c = thresh /\ c_once c = false /\
+      c_msg c = report_text (o_description o)
+                  (report_line section (o_docstring_lineno o) (o_linenumber o) off (o_is_module o)) descr.
+Proof.
+  intros o descr section off thresh. exists (report_call o descr section off thresh).
+  split; [exact (code_report_is_model o descr section off thresh)|]. repeat split.
+Qed.
+
+Theorem C16_code_get_lineno_is_model :
+  forall (node : dnode) (ancs : list dnode),
+    returned (get_lineno_ir code_get_lineno node ancs) = Some (VInt (get_lineno_chain node ancs)).
+Proof. exact code_get_lineno_is_model. Qed.
+
+Theorem C16_code_report_errors_is_model :
+  forall (o : obj) (errs : list perr) (section : text) (pe : parse_errors),
+    effects_of (report_errors_ir code_report_errors o errs section pe) = Some (report_errors_fx o errs section pe).
+Proof. exact code_report_errors_is_model. Qed.
+
+Theorem C16_code_report_errors_effects_are_model :
+  forall v st pe o errs section,
+    fold_left (apply_fx v) (report_errors_fx o errs section pe) (st, pe) = report_errors v st pe o errs section.
+Proof. exact report_errors_fx_model. Qed.
